@@ -47,16 +47,19 @@ REQUIRED_PROBES = {
     "quick": ["failed_then_later_checked", "require_after_failed_require",
               "faulted_require_then_retry", "cached_module_path",
               "two_instances", "scratch_env", "repeat_checked",
-              "env_moved_between_instances"],
+              "env_moved_between_instances", "repl_commands"],
     "thorough": ["failed_then_later_checked", "require_after_failed_require",
                  "faulted_require_then_retry", "cached_module_path",
                  "two_instances", "scratch_env", "repeat_checked",
-                 "env_moved_between_instances"],
+                 "env_moved_between_instances", "repl_commands"],
 }
 
 SYNTAX_ERRORS = ["def x_bad = ;", "1 +", "do 1; 2", "def = 5", "[1, 2",
                  "if 1 == 1 then", ")", "def f_bad( do 1; end", "1 2",
                  "for k_z in do 1; end", "<<<1 =>>>>", "x ===", "def 5 = 1", "end"]
+# shapes that do not make the REPL wait for a continuation line
+SYNTAX_ERRORS_COMPLETE = ["def x_bad = ;", "def = 5", ")", "1 2",
+                          "<<<1 =>>>>", "x ===", "def 5 = 1", "end"]
 ERR_VALUES = ["boom", 7, 0, ["f", 1.5], True, None, ["l", [1, 2]],
               ["l", []], "ERROR", ["set", [3]], ["map", [["k", 1]]]]
 
@@ -201,8 +204,11 @@ def gen_case(rng, tier, k):
             files[f"{d}/{mid}.ckl"] = {"ir": ir2}
 
     share_env = two and rng.random() < 0.5
+    host = "api"
+    if not two and loc in ("home", "session") and rng.random() < 0.45:
+        host = "repl"          # the real REPL loop is the host
     case = {"config": {"instances": insts, "store": store,
-                       "share_env": share_env,
+                       "share_env": share_env, "host": host,
                        "prng": round(rng.random(), 6)},
             "files": files, "ops": []}
 
@@ -373,7 +379,7 @@ def gen_case(rng, tier, k):
         inst = rng.choice(insts)["name"]
         m = gm[inst]
         env = None
-        if rng.random() < (0.4 if share_env else 0.15):
+        if host != "repl" and rng.random() < (0.4 if share_env else 0.15):
             env = rng.choice(["E1", "E2"])
         scope = scope_of(inst, env)
         r = rng.random()
@@ -435,7 +441,9 @@ def gen_case(rng, tier, k):
             elif kind == "syntax":
                 for _ in range(rng.randrange(0, 3)):
                     stmts.append(gen_state_stmt(scope))
-                stmts.append(["raw", rng.choice(SYNTAX_ERRORS)])
+                stmts.append(["raw", rng.choice(
+                    SYNTAX_ERRORS_COMPLETE if host == "repl"
+                    else SYNTAX_ERRORS)])
             elif kind == "loopabort":
                 nloop = rng.randrange(2, 6)
                 j = rng.randrange(0, nloop + 1)
